@@ -60,6 +60,8 @@ def rule_R2(chk, repo):
                     chk.ob(rid, where(repo, fi, node), f'{fi.name}(mode={mode!r}) [{label}]: {text[:150]}', ok, text,
                            key=base + (f'|#{seen[base]}' if seen[base] > 1 else ''))
                     n += 1
+    from .C13 import from_vector_rules
+    n += from_vector_rules(chk, repo, rid)
     chk.floor(rid, n, 30)
 
 
